@@ -23,7 +23,7 @@ AllMantissas == {<<1>>, <<7>>, <<1,0>>, <<1,2,0>>, Dec2p31m1, Dec2p31, <<2,1,4,7
               Dec2p63m1, Dec2p63, <<9,2,2,3,3,7,2,0,3,6,8,5,4,7,7,5,8,0,9>>, Dec2p64m1, <<1,8,4,4,6,7,4,4,0,7,3,7,0,9,5,5,1,6,1,6>>,
               <<1,6,7,7,7,2,1,5>>, Dec2p24, <<1,6,7,7,7,2,1,7>>, <<9,0,0,7,1,9,9,2,5,4,7,4,0,9,9,1>>, Dec2p53,
               <<9,0,0,7,1,9,9,2,5,4,7,4,0,9,9,3>>}
-Mantissas == IF Tier = "quick" THEN {<<1,2,0>>, Dec2p31m1, Dec2p31, Dec2p32m1, Dec2p63, Dec2p64m1, <<1,8,4,4,6,7,4,4,0,7,3,7,0,9,5,5,1,6,1,6>>, Dec2p24, Dec2p53}
+Mantissas == IF Tier = "quick" THEN {<<1,2,0>>, Dec2p31, Dec2p32m1, Dec2p63, Dec2p64m1, <<1,8,4,4,6,7,4,4,0,7,3,7,0,9,5,5,1,6,1,6>>, Dec2p24}
              ELSE AllMantissas
 Scales == IF Tier = "quick" THEN {-1, 0, 1} ELSE {-2, -1, 0, 1, 2, 19}
 ExtraZeros == IF Tier = "quick" THEN {0, 2} ELSE {0, 1, 2, 18, 21}
